@@ -60,7 +60,7 @@ def evaluate(name, everything, jobs):
         for cid in checks_for(prop, everything):
             env = dict(os.environ, VERIF_REPO_SRC=wt + "/src", VERIF_NO_EVIDENCE="1", VERIF_SHRINK_S="10",
                        VERIF_REPLAY_DIR=os.path.join(wt, "replays"))
-            p = subprocess.run(["./check", cid, "--quick", "--jobs", str(jobs)], cwd=VERIF, env=env, text=True,
+            p = subprocess.run(["./check", cid, "--quick", "--jobs", str(jobs)], cwd=SNAP or VERIF, env=env, text=True,
                                stdout=subprocess.PIPE, stderr=subprocess.STDOUT)
             first = [l.strip()[2:] for l in p.stdout.splitlines() if l.startswith("  # ")][:1]
             res[cid] = dict(rc=p.returncode, verdict={0: "missed", 1: "CAUGHT"}.get(p.returncode, "error"),
@@ -80,8 +80,24 @@ def evaluate(name, everything, jobs):
     return name, prop, res
 
 
+SNAP = None
+
+
+def snapshot():
+    """the checks run from a copy of /verif taken now (outside /repo and /verif, removed at the end), so that editing the
+    checks while a matrix is running does not disturb it"""
+    global SNAP
+    SNAP = tempfile.mkdtemp(prefix="sm-verif-")
+    sh("rsync -a --exclude .git --exclude seeded --exclude evidence --exclude replays --exclude .deps --exclude mutation "
+       "--exclude __pycache__ %s/ %s/" % (VERIF, SNAP))
+    if os.path.isdir(os.path.join(VERIF, ".deps")):
+        os.symlink(os.path.join(VERIF, ".deps"), os.path.join(SNAP, ".deps"))
+    os.makedirs(os.path.join(SNAP, "evidence"), exist_ok=True)
+
+
 def main():
     args = sys.argv[1:]
+    snapshot()
     everything = "--all" in args
     par = int(args[args.index("--par") + 1]) if "--par" in args else 3
     jobs = int(args[args.index("--jobs") + 1]) if "--jobs" in args else 5
@@ -97,6 +113,7 @@ def main():
             errs = [c for c, v in res.items() if isinstance(v, dict) and v.get("verdict") == "error"]
             print("%-6s own=%s also=%s%s" % (name, own, ",".join(others) or "-", (" ERR=" + ",".join(errs)) if errs else ""), flush=True)
             rows.append((name, prop, own, others))
+    shutil.rmtree(SNAP, ignore_errors=True)
     print("\n| seed | property | own check | also caught by |\n|---|---|---|---|")
     for name, prop, own, others in rows:
         print("| %s | %s | %s | %s |" % (name, prop, own, ", ".join(others) or "–"))
